@@ -40,7 +40,12 @@ EDGE = [b"#define X(", b"#define X(a", b"#if 1 /", b"#if 1 / 0\n#endif\n", b"#if
         b"#if defined(\n#endif\n", b"#if defined\n#endif\n", b"#if __has_include(\n#endif\n", b"#if __has_include(<)\n#endif\n", b"#ifdef\n#endif\n", b"#if 1 ? 2\n#endif\n",
         b"#if 1 ^ 3\nint x;\n#endif\n", b"#if ~0u\n#endif\n", b"#if 'ab'\n#endif\n", b"__begin_publish\n__begin_publish\n", b"__end_publish\n", b"__published:\n",
         b"class A { __published: int f(); __make_property(x, f, g, h, i); };", b"class A { __make_seq(a, b, c); };", b"alignas(1 / 0) int x;", b"static_assert(1 / 0, \"\");",
-        b"int a = sizeof(int[1/0]);", b"decltype(1/0) x;", b"template<int N = 1/0> struct T {};", b"struct S { int b : 1 / 0; };"]
+        b"int a = sizeof(int[1/0]);", b"decltype(1/0) x;", b"template<int N = 1/0> struct T {};", b"struct S { int b : 1 / 0; };",
+        b"#define X 1\n#pragma push_macro(\"X\")\n#undef X\n#define X 2\n#pragma pop_macro(\"X\")\nint a[X];\n",
+        b"#pragma pop_macro(\"X\")\nint X;\n", b"#pragma push_macro(\"X\")\n#pragma pop_macro(\"X\")\n#pragma pop_macro(\"X\")\nint a = X;\n",
+        b"#pragma push_macro(\"\")\n#pragma pop_macro(\"\n", b"#define d (struct s:\n", b"#if (struct s {\n#endif\n", b"#define e (enum {a\nint x = e;\n",
+        b"decltype(undeclared_name) x;", b"struct B;\nstruct A : B {\n__published:\n  virtual int fa();\n};\nstruct B : A {\n__published:\n  int fb();\n};\n",
+        b"template<class... Ts> struct V;\ntemplate<class P> struct H<V<P", b"#line 5\n#line\n#line x\n", b"#error\n#warning\n", b"#elifdef X\n#elifndef\n", b"#include_next <x>\n", b"#ident \"x\"\n#assert x\n"]
 
 
 def stages(ctx):
@@ -163,6 +168,8 @@ def fuzz_stage(ctx, stats):
         stats.nontrivial.add("fuzz-unit-%d" % i)
     # cluster artifacts
     known = known_sites(ctx)
+    macro_timeouts_known = any(k == "timeout" for k, _ in known)
+    macro_site = next((sname for k, sname in known if k == "timeout"), "?")
     files = sorted(glob.glob(os.path.join(arts, "crash-*")) + glob.glob(os.path.join(arts, "timeout-*")))
     stats.extra["fuzz_artifacts"] = len(files)
     clusters = {}
@@ -185,6 +192,16 @@ def fuzz_stage(ctx, stats):
         kind, site = crash_site(rr.err.decode("latin-1"))
         if rr.timed_out:
             kind = "timeout"
+        if kind == "timeout" and (kind, site) not in known and macro_timeouts_known:
+            # attribute the hang: the same input with its function-like macro definitions neutralised.  If that terminates, the time
+            # goes into macro expansion (the recorded finding), wherever the stack happened to be when the alarm fired.
+            data = open(f, "rb").read()
+            neutral = data[:1] + re.sub(rb"(#[ \t]*define[ \t]+\w+)\(", rb"\1_VFOFF (", data[1:])
+            nf = f + ".neutral"
+            open(nf, "wb").write(neutral)
+            r2 = run.run([h, "-timeout=40", nf], cwd=work, env=env, timeout=70, asan=True)
+            if neutral != data and r2.rc == 0 and not r2.timed_out:
+                site = macro_site
         c = clusters.setdefault((kind, site), {"n": 0, "file": f, "err": rr.err.decode("latin-1")[-1500:]})
         c["n"] += 1
         if os.path.getsize(f) < os.path.getsize(c["file"]):
@@ -241,6 +258,8 @@ PUNCT_INS = [b"(", b")", b"{", b"}", b"<", b">", b";", b"#", b"##", b"\"", b"'",
 
 
 def materialise(case):
+    if "text" in case:
+        return case["text"].encode("latin-1")         # replay form of minimised findings
     seeds = _seeds()
     data = seeds[case["seed"] % len(seeds)]
     toks = re.findall(rb"\s+|[A-Za-z_]\w*|\d[\w.']*|\"(?:[^\"\\\n]|\\.)*\"|'(?:[^'\\\n]|\\.)*'|.", data, re.S)
